@@ -73,7 +73,7 @@ ASSUME = ["SimCluster is Kafka", "small scope; bounds in the notes"]
 
 def run(tier, seed, only=None):
     if tier == "quick":
-        plans = [("close-everywhere-2dev", configs(tier), (1, 1, 2))]
+        plans = [("close-everywhere-3dev", configs(tier), (1, 2, 3)), ("close-2faults", configs(tier), (2, 1, 3))]
     else:
-        plans = [("close-everywhere-3dev", configs(tier), (2, 1, 3)), ("close-reorder", configs(tier), (0, 2, 2))]
+        plans = [("close-everywhere-4dev", configs(tier), (2, 2, 4))]
     return _dfs.run_plans(PROPERTY, SPEC, plans, seed, RULE, ASSUME, max_steps=300)
